@@ -666,7 +666,8 @@ impl Sess {
 		if self.growth {
 			// growth sessions: a top-level batch works on one window of neighbouring keys of one
 			// key space, so that the pages it dirties stay well below the map's free headroom
-			let i = self.g_win + self.prng.usize_below(40);
+			let w = (16 * (TL_MAP_SIZE.with(|c| c.get()) / MIB) as usize).clamp(16, 96);
+			let i = self.g_win + self.prng.usize_below(w);
 			return self.universe[i % self.universe.len()].clone();
 		}
 		let i = self.prng.usize_below(self.universe.len());
@@ -1137,7 +1138,7 @@ fn st_program(store: &Store, st: &mut Sess) -> Result<(), Fail> {
 		st.batch_budget = if st.growth {
 			st.g_space = st.prng.usize_below(NS);
 			st.g_win = st.prng.usize_below(st.universe.len());
-			((TL_MAP_SIZE.with(|c| c.get()) / 64) as usize).min(64 * 1024)
+			((TL_MAP_SIZE.with(|c| c.get()) / 128) as usize).min(64 * 1024)
 		} else {
 			usize::MAX
 		};
@@ -1383,14 +1384,31 @@ fn mt_val(id: u64, k: u32, seq: u32) -> Val {
 		payload: mt_payload(id, seq),
 	}
 }
-/// Rough upper estimate of the bytes of map a batch dirties.
-fn mt_cost(id: u64, k: u32) -> u64 {
+/// Conservative estimate of the 4 KiB pages dirtied by writing (or deleting) all keys of a
+/// batch: half-full leaves after splits plus two branch pages per touched region.
+fn mt_pages(id: u64, k: u32) -> u64 {
 	if mt_scattered(id) {
-		k as u64 * 4096
+		3 * k as u64
 	} else {
-		k as u64 * 360
+		let spaces: u64 = if id % 4 == 1 { 3 } else { 1 };
+		(k as u64 * 330) / 2000 + 2 + 2 * spaces + (spaces - 1)
 	}
 }
+/// Largest k with mt_pages(id, k) <= pages (at least 1).
+fn mt_kmax(id: u64, pages: u64) -> u64 {
+	if mt_scattered(id) {
+		(pages / 3).max(1)
+	} else {
+		let spaces: u64 = if id % 4 == 1 { 3 } else { 1 };
+		let fixed = 2 + 2 * spaces + (spaces - 1);
+		if pages <= fixed {
+			1
+		} else {
+			((pages - fixed) * 2000 / 330).max(1)
+		}
+	}
+}
+const MT_JUNK_PAGES: u64 = 9;
 fn mt_expected_in_space(id: u64, k: u32, s: usize) -> u32 {
 	(0..k).filter(|q| mt_space(id, *q) == s).count() as u32
 }
@@ -1529,7 +1547,11 @@ fn mt_del_all(b: &mut Batch<'_>, id: u64, k: u32) -> Result<(), Fail> {
 /// Writes that must leave no trace: done in a child that is then dropped.
 fn mt_junk(b: &mut Batch<'_>, sh: &Shared, other: Option<(u64, u32)>) -> Result<(), Fail> {
 	let mut c = b.child().map_err(|e| fail_from_err("mt", "child", &e))?;
-	let jid = sh.next_id.fetch_add(1, Ordering::SeqCst); // never registered in the log
+	// junk ids are never registered in the log; take a contiguous-layout id (fewer pages)
+	let mut jid = sh.next_id.fetch_add(1, Ordering::SeqCst);
+	while mt_scattered(jid) || jid % 4 == 1 {
+		jid = sh.next_id.fetch_add(1, Ordering::SeqCst);
+	}
 	for q in 0..3 {
 		mt_put(&mut c, jid, 3, q, q % 2 == 0)?;
 	}
@@ -1723,7 +1745,10 @@ fn mt_writer(sh: &Shared, store: &Store, p: &MtParams, tid: usize, wid: u8, mut 
 		sh.st(tid, 2);
 		let id = sh.next_id.fetch_add(1, Ordering::SeqCst);
 		let map = LOG_MAP_SIZE.load(Ordering::SeqCst);
-		let budget = (map / 64).min(96 * 1024);
+		// Pages a batch may dirty: the map is only enlarged between batches (check at 90 % use),
+		// so everything written after one check must fit into the remaining 10 %; with a second
+		// writer queued behind a stale check that is two batches. Allow 1/32 of the map per batch.
+		let budget = (map / 4096 / 32).clamp(8, 200);
 		let live_main = sh.live_keys_main.load(Ordering::SeqCst);
 		let p_del = if live_main < p.target_keys {
 			10
@@ -1734,19 +1759,23 @@ fn mt_writer(sh: &Shared, store: &Store, p: &MtParams, tid: usize, wid: u8, mut 
 		};
 		let mut victim: Option<(usize, u32, u64, u32)> = None;
 		let mut other: Option<(u64, u32)> = None;
-		let mut remaining = budget;
+		let mut remaining = budget - 3;
+		let junk = remaining >= 20 + MT_JUNK_PAGES;
+		if junk {
+			remaining -= MT_JUNK_PAGES;
+		}
 		{
 			let l = sh.log.read().unwrap();
 			if !live.is_empty() && prng.below(100) < p_del {
 				let vi = prng.usize_below(live.len());
 				let e = &l.entries[live[vi] as usize];
-				let c = mt_cost(e.id, e.k);
-				if c <= budget / 2 {
+				let c = mt_pages(e.id, e.k);
+				if c <= remaining / 2 {
 					victim = Some((vi, live[vi], e.id, e.k));
 					remaining -= c;
 				}
 			}
-			if live.len() >= 2 {
+			if junk && live.len() >= 2 {
 				let oi = prng.usize_below(live.len());
 				if victim.map(|v| v.0) != Some(oi) {
 					let e = &l.entries[live[oi] as usize];
@@ -1754,8 +1783,7 @@ fn mt_writer(sh: &Shared, store: &Store, p: &MtParams, tid: usize, wid: u8, mut 
 				}
 			}
 		}
-		let unit = if mt_scattered(id) { 4096 } else { 360 };
-		let mut kmax = (remaining / unit).max(1).min(2000);
+		let mut kmax = mt_kmax(id, remaining).min(2000);
 		if live_main >= p.target_keys * 115 / 100 {
 			// above the target: do not write more keys than the batch deletes
 			kmax = kmax.min(victim.map(|v| v.3 as u64).unwrap_or(8).max(1));
@@ -1779,12 +1807,12 @@ fn mt_writer(sh: &Shared, store: &Store, p: &MtParams, tid: usize, wid: u8, mut 
 			sh.pushed.store(l.entries.len(), Ordering::SeqCst);
 			idx
 		};
-		let mode = prng.below(5);
+		let mode = if junk { prng.below(5) } else { prng.below(2) };
 		let ctx = |sh: &Shared| {
 			json!({"writer": wid + 1, "batch_keys": k, "scattered": mt_scattered(id), "mode": mode,
 				"deleted_batch_keys": victim.map(|v| v.3), "map_size_at_batch_start": map,
 				"map_size_now": LOG_MAP_SIZE.load(Ordering::SeqCst), "data_mdb_bytes": data_mdb_size(&p.dir),
-				"estimated_cost_budget_bytes": budget, "resizes_decided": LOG_RESIZE_DECIDED.load(Ordering::SeqCst),
+				"estimated_page_budget": budget, "resizes_decided": LOG_RESIZE_DECIDED.load(Ordering::SeqCst),
 				"resizes_completed": LOG_RESIZE_END.load(Ordering::SeqCst),
 				"other_threads": (0..sh.roles.len()).map(|t| format!("{}:{}", sh.roles[t], state_name(sh.tstate[t].load(Ordering::Relaxed)))).collect::<Vec<_>>()})
 		};
@@ -2731,14 +2759,14 @@ fn worker_crash(args: &[String]) -> i32 {
 	let mut prefill = 0u64;
 	loop {
 		if resize_variant {
-			if data_mdb_size(&db) >= 800 * 1024 || prefill > 400 {
+			if data_mdb_size(&db) >= 900 * 1024 || prefill > 600 {
 				break;
 			}
 		} else if prefill >= 6 {
 			break;
 		}
 		g.bid += 1;
-		let nops = if resize_variant { 40 } else { 25 };
+		let nops = if resize_variant { 30 } else { 25 };
 		let ops = g.ops(0, nops);
 		model.begin();
 		crash_apply_model(&mut model, &ops);
@@ -2754,12 +2782,12 @@ fn worker_crash(args: &[String]) -> i32 {
 		prefill += 1;
 	}
 	// armed batches: generated and modelled BEFORE arming
-	let n_armed = if resize_variant { 6 } else { 4 };
+	let n_armed = if resize_variant { 8 } else { 4 };
 	let mut armed: Vec<(Vec<COp>, bool)> = vec![];
 	let mut states = vec![model.fingerprint()];
 	for i in 0..n_armed {
 		g.bid += 1;
-		let nops = if resize_variant { 90 } else { g.prng.range(12, 40) as usize };
+		let nops = if resize_variant { 50 } else { g.prng.range(12, 40) as usize };
 		let mut ops = g.ops(0, nops);
 		// make sure every armed batch has a committed and a dropped child with writes
 		g.bid += 1;
@@ -3402,7 +3430,7 @@ fn main() {
 		 point readers, snapshot iterators and iterator holders run meanwhile; every snapshot must hold all or none of each batch's keys and equal the state after a prefix of the commit log between the commits finished before and started before its creation. \
 		 (3) crash: worker killed by abort at every crash point around Batch::commit of a sequence of nested batches; reopened content must equal exactly the model state for the number of completed commits.",
 	);
-	run.assume("a single batch dirties less than the free headroom the resize policy leaves (writers size a batch to <= 1/64 of the current map size); a batch larger than the headroom can legitimately hit MDB_MAP_FULL because the map is only enlarged between batches (see extra.headroom_probe)");
+	run.assume("the map is only enlarged in Store::batch() when > 90 % is used, so what is written after one check must fit into the remaining 10 % (26 pages for the 1 MiB test map, 12.8 MB in production); the workloads size a batch to an estimated <= 1/32 of the current map (two queued writers + estimation error stay below 10 %). A batch larger than the headroom, or several writers queued behind a stale check with large batches, can hit MDB_MAP_FULL; that is reported only as extra.headroom_probe, not as a violation");
 	run.assume("a thread that keeps its own read iterator open while writing bypasses the resize wait (nested-tx escape in enter_tx); the single-thread growth sessions close held iterators at the end of each top-level batch");
 	run.assume("iterators are dropped before the Store that created them (TxCounter::drop unwraps the ENV_MAP entry removed by Store::drop)");
 	let scratch = Scratch::new("c18");
